@@ -133,9 +133,19 @@ impl<T: DeepCopy + DeserializeInner, const N: usize> DeserializeHelper<Deep> for
     #[inline(always)]
     fn _deserialize_full_inner_impl(backend: &mut impl ReadWithPos) -> deser::Result<Self> {
         let mut res = MaybeUninit::<[T; N]>::uninit();
+        let items = res.as_mut_ptr() as *mut T;
         unsafe {
-            for item in &mut res.assume_init_mut().iter_mut() {
-                std::ptr::write(item, T::_deserialize_full_inner(backend)?);
+            for i in 0..N {
+                match T::_deserialize_full_inner(backend) {
+                    Ok(item) => std::ptr::write(items.add(i), item),
+                    Err(e) => {
+                        // drop the items deserialized so far, as MaybeUninit would leak them
+                        for j in 0..i {
+                            std::ptr::drop_in_place(items.add(j));
+                        }
+                        return Err(e);
+                    }
+                }
             }
             Ok(res.assume_init())
         }
@@ -145,9 +155,19 @@ impl<T: DeepCopy + DeserializeInner, const N: usize> DeserializeHelper<Deep> for
         backend: &mut SliceWithPos<'a>,
     ) -> deser::Result<<Self as DeserializeInner>::DeserType<'a>> {
         let mut res = MaybeUninit::<<Self as DeserializeInner>::DeserType<'_>>::uninit();
+        let items = res.as_mut_ptr() as *mut <T as DeserializeInner>::DeserType<'a>;
         unsafe {
-            for item in &mut res.assume_init_mut().iter_mut() {
-                std::ptr::write(item, T::_deserialize_eps_inner(backend)?);
+            for i in 0..N {
+                match T::_deserialize_eps_inner(backend) {
+                    Ok(item) => std::ptr::write(items.add(i), item),
+                    Err(e) => {
+                        // drop the items deserialized so far, as MaybeUninit would leak them
+                        for j in 0..i {
+                            std::ptr::drop_in_place(items.add(j));
+                        }
+                        return Err(e);
+                    }
+                }
             }
             Ok(res.assume_init())
         }
